@@ -67,7 +67,12 @@ fn shard(args: &Args) {
     let mut w = World::new(&work, kind);
     let mut rng = Rng(seed() ^ 0xC05);
     let (mut ngraphs, mut npres, mut drift, mut nontrivial, mut bad) = (0i64, 0i64, 0i64, 0i64, 0i64);
+    let t0 = std::time::Instant::now();
+    let (mut tm, mut tp, mut te) = (0u128, 0u128, 0u128);
     for case in cases {
+        if std::env::var("HWV_TIMING").is_ok() && ngraphs % 100 == 0 {
+            eprintln!("graphs={ngraphs} t={:?} materialise={}ms (store {}ms, {} stores) present={}ms eval={}ms", t0.elapsed(), tm / 1000, w.store_us / 1000, w.stores, tp / 1000, te / 1000);
+        }
         let g = GraphSpec::from_case(&case);
         let idx = case["_i"].as_u64().unwrap_or(0);
         let all: BTreeSet<usize> = (0..=g.m()).collect();
@@ -80,15 +85,22 @@ fn shard(args: &Args) {
             bad += 1;
             out.emit(&json!({"ok": false, "case": case, "kind": kind.name(), "sig": sig, "detail": detail, "presentation": pres}));
         };
+        let t1 = std::time::Instant::now();
         let oids = w.materialise(&g, idx + seed() * 7919, false);
+        tm += t1.elapsed().as_micros();
         let labels = label_map(&oids);
         let mut first: Option<Observed> = None;
         let mut failed = false;
         for (name, refs, via_list) in presentations(&g, w.namespaces.len(), &mut rng, max_perms) {
             let rr: Vec<(usize, radicle::git::Oid)> = refs.iter().map(|(n, c)| (*n, oids[*c])).collect();
+            let t1 = std::time::Instant::now();
             w.present(&rr);
+            tp += t1.elapsed().as_micros();
             npres += 1;
-            match w.eval(&labels, via_list) {
+            let t1 = std::time::Instant::now();
+            let ev = w.eval(&labels, via_list);
+            te += t1.elapsed().as_micros();
+            match ev {
                 Ok(Some(o)) => {
                     if let Some(f) = &first {
                         if *f != o {
@@ -183,7 +195,11 @@ fn record(args: &Args) {
             w.present(&rr);
             let via_list = rng.below(4) == 0;
             let view = match w.eval(&labels, via_list) {
-                Ok(Some(o)) => json!({"log": o.log(), "lww": o.lww(), "hist": o.hist, "tips": o.tips}),
+                // payload strings carry the creation-time labels: map the title back through `rank`
+                Ok(Some(o)) => {
+                    let lww = if o.lww() > 0 { rank[o.lww() as usize] as i64 } else { o.lww() };
+                    json!({"log": o.log(), "lww": lww, "hist": o.hist, "tips": o.tips})
+                }
                 Ok(None) => json!({"log": [], "lww": -2, "hist": [], "tips": []}),
                 Err(e) => json!({"log": [], "lww": -3, "hist": [], "tips": [], "error": e}),
             };
@@ -201,6 +217,7 @@ fn record(args: &Args) {
 fn main() {
     let args = Args::parse();
     quiet_panics();
+    tune_malloc();
     match args.req("--mode") {
         "replay" => {
             let cases = read_ndjson(Path::new(args.req("--cases")));
